@@ -44,7 +44,7 @@ def cases(draw):
         fn = draw(st.sampled_from(FUNCS))
     axis = 0 if dom in ('D3', 'D4', 'D4h') else draw(st.integers(0, 1))
     skipna, ddof = draw(st.booleans()), draw(st.integers(0, 2))
-    il, cl = draw(st.sampled_from(['auto', 'str'])), draw(st.sampled_from(['auto', 'str']))
+    il, cl = draw(st.sampled_from(['auto', 'str', 'auto', 'str', 'ih'])), draw(st.sampled_from(['auto', 'str', 'auto', 'str', 'ih']))
     n = draw(st.sampled_from([3, 1, 2, 0, 2, 1, 3, 4, 4, 5, 5, 6]))
     m = draw(st.sampled_from([3, 1, 2, 0, 2, 1, 3, 4, 4, 5, 5, 6]))
     blks = draw(gen.blocks(n, m, kinds=kinds, missing=True))
@@ -115,9 +115,16 @@ def oracle_line(arr, fn, skipna, ddof):
 def check(case):
     blks = case['blocks']
     n, m = case['n'], case['m']
-    il = list(range(n)) if case['ilabels'] == 'auto' else ['r%d' % i for i in range(n)]
-    cl = list(range(m)) if case['clabels'] == 'auto' else ['c%d' % j for j in range(m)]
-    f = sf.Frame(sf.TypeBlocks.from_blocks([gen.freeze(b) for b in blks], shape_reference=(n, m)), index=il, columns=cl, own_data=True)
+    def _labels(kind, k, pre):
+        if kind == 'auto':
+            return list(range(k))
+        if kind == 'ih' and k:  # two-level labels: results are labelled by (or hold) whole label tuples
+            return [(pre + 'g%d' % (i * 2 // k), i) for i in range(k)]
+        return [pre + '%d' % i for i in range(k)]
+    il, cl = _labels(case['ilabels'], n, 'r'), _labels(case['clabels'], m, 'c')
+    f = sf.Frame(sf.TypeBlocks.from_blocks([gen.freeze(b) for b in blks], shape_reference=(n, m)),
+                 index=sf.IndexHierarchy.from_labels(il) if (case['ilabels'] == 'ih' and n) else il,
+                 columns=sf.IndexHierarchy.from_labels(cl) if (case['clabels'] == 'ih' and m) else cl, own_data=True)
     cols = gen.block_columns(blks)
     fn, axis, skipna, ddof = case['fn'], case['axis'], case['skipna'], case['ddof']
     dom = case['dom']
@@ -151,7 +158,7 @@ def check(case):
         lines = [np.array([arr_list(c)[i] for c in cols], dtype=rdt) for i in range(n)]
         labels, other = il, cl
     tol = _tol([c.dtype for c in cols])
-    classes = ['dom:' + dom, 'fn:' + fn, 'axis:%d' % axis, 'skipna' if skipna else 'noskip']
+    classes = ['dom:' + dom, 'fn:' + fn, 'axis:%d' % axis, 'skipna' if skipna else 'noskip', 'labels:%s/%s' % (case['ilabels'], case['clabels'])]
     expected = [oracle_line(a, fn, skipna, ddof) for a in lines]
     defined = [e for e in expected if e[0] != 'raise']
     if isinstance(r, Raised):
